@@ -125,6 +125,18 @@ func vInput(ncols, rows, sl int) (proto.Input, []rCol) {
 		in = append(in, proto.InputColumn{Name: "b", Data: col})
 		ref = append(ref, rc)
 	}
+	if ncols >= 3 {
+		// a column with a serialization-state prefix (<=1 row here): the prefix is written iff the block has rows
+		col := new(proto.ColStr).LowCardinality()
+		rc := rCol{name: "c", typ: "LowCardinality(String)", lc: true}
+		for i := 0; i < rows; i++ {
+			s := verifStr("lcell", sl)
+			col.Append(s)
+			rc.strs = append(rc.strs, s)
+		}
+		in = append(in, proto.InputColumn{Name: "c", Data: col})
+		ref = append(ref, rc)
+	}
 	return in, ref
 }
 
@@ -132,7 +144,7 @@ func vInput(ncols, rows, sl int) (proto.Input, []rCol) {
 func vHeaderCols(ref []rCol) []rCol {
 	var h []rCol
 	for _, c := range ref {
-		h = append(h, rCol{name: c.name, typ: c.typ, isStr: c.isStr})
+		h = append(h, rCol{name: c.name, typ: c.typ, isStr: c.isStr, lc: c.lc})
 	}
 	return h
 }
@@ -142,8 +154,11 @@ func VerifC02Insert() {
 	v := verifInt("version")
 	verifAssume(vAnd(v >= 0, v < 1<<31))
 	framed := verifChoice("compression", 2) == 1
-	ncols := verifIntRange("cols", 1, 2)
+	ncols := verifIntRange("cols", 1, 3)
 	rows := verifIntRange("rows", 0, verifParam("maxrows", 2))
+	if ncols == 3 && rows > 1 {
+		rows = 1 // the reference writes LowCardinality dictionaries of one entry
+	}
 	sl := verifIntRange("strlen", 0, 1)
 	input, ref := vInput(ncols, rows, sl)
 	q := Query{Body: "INSERT INTO t VALUES", QueryID: "q" + verifStr("id", 1), Input: input}
